@@ -90,6 +90,7 @@ def run(eng, rep) -> None:
     rep.rule("R18.2", "copies into the frame's fixed-size arrays are bounded by the array and do not over-read a shorter source")
     rep.rule("R18.3", "unknown (id, bus): the name lookup falls through to nullopt and Decode returns nullopt on it")
     rep.rule("R18.4", "the frame's 4-character bus tag is compared after removing its zero padding")
+    rep.rule("R18.8", "Encode/Decode of the CAN wrappers do not write into the wrapper object's own storage (directly or through a local reference/iterator into a member)")
     rep.rule("R18.6", "a lookup key made of several variable texts keeps them apart (separator or fixed width): no two (id, bus) pairs share a key")
     rep.rule("R18.5", "static tables and run-time lookups: same population (CAN bindings) and keys (id, bus, name)")
     rep.rule("R18.7", "a generated table that a binary search walks is emitted in the order the search compares by (Jinja sort is case-insensitive by default)")
@@ -389,6 +390,57 @@ def run(eng, rep) -> None:
         rep.check(keys_ok, "R18.5", HD + "can_static_schema.h", "tables", "keys impl.fields['id'], impl.fields['bus'], impl.name", "the binding's id, bus and name", "a static table is not keyed by the binding's id / bus / name")
     except Exception as e:  # template not loadable: not decided
         rep.undecided("R18.5", HD + "can_static_schema.h", "tables", "Jinja loops", str(e)[:120])
+    # ---- R18.8: Encode / Decode leave the wrapper's own state alone ----------------------------------
+    # a local REFERENCE (or iterator / pointer) into a data member, written through: what one call stores is seen by the next
+    for cname, w in sorted(wr.items()):
+        F_ = HD + ("can_static_schema.h" if cname == "CanStaticSchema" else "can_dynamic_schema.h")
+        for mname_ in ("Encode", "Decode", "DecodeMsg", "EncodeJson", "DecodeJson"):
+            b = w.body(mname_)
+            if b is None:
+                continue
+
+            def from_this(e, tainted) -> bool:
+                for y in walk(e):
+                    if y.kind == "CXXThisExpr":
+                        return True
+                    if y.kind == "DeclRefExpr" and y.get("referencedDecl", {}).get("id") in tainted:
+                        return True
+                return False
+            tainted: Set[str] = set()   # local variables that denote storage inside *this (references, iterators, pointers)
+            refs: Dict[str, str] = {}
+            changed = True
+            while changed:
+                changed = False
+                for d in walk(b):
+                    if d.kind != "VarDecl" or d.get("id") in tainted or not d.inner:
+                        continue
+                    qt = d.qtype or ""
+                    is_ref = qt.rstrip().endswith("&") and not qt.lstrip().startswith("const")
+                    is_iter = "iterator" in (d.desugared or qt) and "const_iterator" not in (d.desugared or qt)
+                    is_ptr = qt.rstrip().endswith("*") and "const " not in qt
+                    if (is_ref or is_iter or is_ptr) and from_this(d.inner[-1], tainted):
+                        tainted.add(d.get("id"))
+                        refs[d.get("id")] = d.get("name")
+                        changed = True
+            n_w = 0
+            for x in walk(b):
+                lhs = None
+                if x.kind in ("BinaryOperator", "CompoundAssignOperator") and (x.get("opcode") == "=" or x.kind == "CompoundAssignOperator"):
+                    lhs = x.inner[0]
+                elif x.kind == "CXXOperatorCallExpr" and len(x.inner) >= 3 and any(y.kind == "DeclRefExpr" and y.get("referencedDecl", {}).get("name") == "operator=" for y in walk(x.inner[0])):
+                    lhs = x.inner[1]
+                elif x.kind == "CallExpr" and callee_name(x) in ("copy", "copy_n", "fill", "fill_n", "memcpy", "memset", "transform") and len(x.inner) > 1:
+                    # the destination argument of a copying algorithm
+                    lhs = x.inner[-1] if callee_name(x) in ("copy", "copy_n", "transform") else x.inner[1]
+                if lhs is None:
+                    continue
+                hit = [refs[y["referencedDecl"]["id"]] for y in walk(lhs) if y.kind == "DeclRefExpr" and y.get("referencedDecl", {}).get("id") in refs]
+                direct = any(y.kind == "CXXThisExpr" for y in walk(lhs))
+                if hit or direct:
+                    n_w += 1
+                    rep.violation("R18.8", F_, "%s::%s" % (cname, mname_), "write through %s" % (("'%s'" % hit[0]) if hit else "a member of this"), "%s() writes into the wrapper object's own storage (%s): what one call leaves there is still there for the next, so a frame can carry bytes of an earlier message" % (mname_, ("the local '%s' refers to a data member" % hit[0]) if hit else "a data member is assigned"))
+            if n_w == 0:
+                rep.ok("R18.8", F_, "%s::%s" % (cname, mname_), "stores in the body", "none goes to storage inside *this (%d local references into members)" % len(refs))
     # ---- R18.6: composite keys are injective -------------------------------------------------------
     n_keys = 0
     for cname, w_ in sorted(wr.items()):
